@@ -203,6 +203,9 @@ func checkTxTypestate(c *Ctx, rule string) {
 
 	for _, fn := range m.txFuncs {
 		name := FuncName(fn)
+		// function literals of the function that are called in it (a local "commit and return" closure, say) are part
+		// of it; named helpers stay calls
+		fn := p.ViewKeeping(fn, func(callee *ssa.Function) bool { return callee.Parent() == nil })
 		begins := allCalls(fn, m.isBegin)
 		commits := allCalls(fn, m.isCommit)
 		bOK, _, bUntested := GuardEdges(fn, begins, ErrNil)
